@@ -2,6 +2,7 @@
 import json
 import os
 import random
+import re
 import shutil
 import subprocess
 import sys
@@ -107,16 +108,27 @@ def run(R):
             errs = {}
             for name, head, kw in (('unnamed', '', {}), ('named', f'grammar c11m{i}\n', {}),
                                    ('unnamed+source', '', {'include_source': True}), ('named+source', f'grammar c11s{i}\n', {'include_source': True}),
-                                   ('unnamed-again', '', {})):
+                                   ('unnamed-again', '', {}), ('after-other-grammars', '', {}), ('named-after-other-grammars', f'grammar c11o{i}\n', {})):
                 try:
+                    if name == 'after-other-grammars':
+                        # grammars whose rules, classes and templates are named like every built-in constructor, like the
+                        # rules of this description and like temporaries: compiled between two compilations of the description
+                        own = sorted(set(re.findall(r'^(?:class )?([A-Za-z][A-Za-z0-9]*)', desc, re.M)))[:12]
+                        for other in ('start = [Opt, Some, Sep?]\nOpt = "q"\nSome = "r"\nSep = "s"\nList(x) = x\nSeq(x, y) = [y, x]\nChoice = "c"\n'
+                                      'Left(x, y) = x\nRight(x, y) = y\nSkip(x) = x\nExpect = "e"\nExpectNot = "n"\nclass Longest { v: "l" }\nFail = "f"\nWhere = "w"\n',
+                                      'grammar c11pollute\nstart = "z"\n' + ''.join(f'{n}x = "z"\n' for n in own) + ''.join(f'{n} = "y"\n' for n in own if n != 'start')):
+                            try:
+                                Grammar(other)
+                            except Exception:   # noqa
+                                pass
                     g = Grammar(head + desc, **kw)
                     variants[name] = (g, [outcome(g, t) for t in texts])
                 except Exception as e:          # noqa
                     errs[name] = type(e).__name__
             R.count('variants', desc, nontrivial=True)
             case = {'grammar': desc[:400]}
-            if errs and len(errs) != 5:
-                R.counterexample('variants', 'variant-fails-to-compile', case, 'all five variants compile or none', errs)
+            if errs and len(errs) != 7:
+                R.counterexample('variants', 'variant-fails-to-compile', case, 'all seven variants compile or none', errs)
                 continue
             if errs:
                 # the catalogue holds valid descriptions only: rejected in every variant is not "equal behaviour", it is a
